@@ -9,7 +9,7 @@ KEYS = ["GPR._eval_gpr", "GPR.eval", "Reaction.functional@getter"]
 VISITOR_KEYS = ["_GeneRemover.visit_Name", "_GeneRemover.visit_BoolOp",
                 "GPRWalker.visit_Name", "GPRWalker.visit_BoolOp", "GPR.update_genes", "GPR.genes@getter/proved",
                 "GPR._symbolic_gpr", "GPR.as_symbolic", "GPR.__eq__", "GPRCleaner.visit_BinOp",
-                "GPR._eval_gpr/heap", "GPR.eval/heap"]
+                "GPR._eval_gpr/heap", "GPR.eval/heap", "GPR.copy", "GPR.__copy__"]
 
 
 def run(rep):
@@ -53,6 +53,8 @@ def run(rep):
                  "object allocation ast.BoolOp(op, values) / ast.And() / ast.Or(): a new node that is no child of an existing node, "
                  "class tag and operator fixed at construction (assumed contracts); NodeTransformer.generic_visit on a BinOp node "
                  "replaces left / right by nodes (assumed contract GPRCleaner.generic_visit)",
+                 "copy.deepcopy of a GPR object returns another GPR object with the same truth table, the same names and a body exactly "
+                 "when the original has one (assumed; GPR.copy / __copy__ are proved to pass it through)",
                  "sympy: Symbol(k) is true iff k is not absent, Or(*es) / And(*es) mean some / all of es (whatever simplification they "
                  "apply), a.equals(b) is True only for logically equivalent a, b, `==` of two Symbols is structural (assumed)"])
 
